@@ -249,6 +249,28 @@ def sigma_segs(segs):
     return const, terms
 
 
+ACCUM_HELPERS = {}     # HIR path -> (accumulator arg, collection arg, payload field); filled by register_accum_helpers
+
+
+def register_accum_helpers(unit):
+    from . import absint as _A
+    from . import mir as _mir
+    ACCUM_HELPERS.clear()
+    for fn, b in unit.bodies.items():
+        if b["in_test_cfg"] or b.get("kind") == "Closure" or b["argc"] != 2:
+            continue
+        if not b["locals"][0]["ty"].startswith("std::result::Result<"):
+            continue
+        try:
+            sm = _A.accum_helper_summary(unit, fn)
+        except Exception:
+            sm = None
+        if sm is not None and sm[2]:
+            for hp in unit.hir:
+                if _mir.norm(hp) == _mir.norm(fn):
+                    ACCUM_HELPERS[hp] = sm
+
+
 def sigma_expr(e):
     """same normal form for a scalar size expression built from literals, Add, casts and sums of len(elem.field)"""
     const, terms = 0, {}
@@ -273,6 +295,14 @@ def sigma_expr(e):
                 terms[t] = terms.get(t, 0) + 1
                 return True
             return False
+        if x[0] in ("okval", "unwrapped") and x[1][0] == "call" and x[1][1] in ACCUM_HELPERS and len(x[1][2]) == 2:
+            # a local helper recognised on MIR as `acc + sum of len(elem.<field>)` through checked additions (absint.accum_helper_summary)
+            acc_i, coll_i, fld = ACCUM_HELPERS[x[1][1]]
+            if not rec(x[1][2][acc_i]):
+                return False
+            t = (L.freeze(L.strip_ids(x[1][2][coll_i])), fld)
+            terms[t] = terms.get(t, 0) + 1
+            return True
         if x[0] == "mcall" and x[1].endswith("Iterator::sum"):
             # samples.iter().map(|s| s.data.len()).sum()
             r = x[2]
